@@ -32,6 +32,8 @@ functions mirroring go1.23 / rare, and `match_eq_spec`, `match_sound`, `match_ba
   `gzip_cut_in_header_is_plain` – the gzip reader (header, DEFLATE, trailer, member loop) is a Lean function of the
   file's bytes; `dispatch_matches_source`, `dispatch_usage_iff`, `dispatch_reader`, `dispatch_plain` – the flag
   plumbing of `BuildBatcherFromArguments`.
+* `run_exit_status` – the exit status of the whole run from what the planned inputs deliver (read errors > parse errors >
+  nothing matched > 0), standard input included.
 * `errors_counted`, `failed_input_exit_2` – read errors = number of failed inputs; any failure ⇒ exit 2.
 * `others_unaffected` – whatever the other inputs do (open error, failure after any number of bytes),
   in every terminal state of the goroutine/channel protocol every healthy input's matching lines have
@@ -158,6 +160,58 @@ theorem failed_input_exit_2 (cfg : Config) (args : List Path) (fs : FsOracle) (f
     intro pe m; unfold exitCode; simp [hpos]
   simp only [run, hu] at hexit hpos ⊢
   exact hexit _ _
+
+/-- **Exit status of the whole run, in terms of what the inputs deliver** (any arguments, standard input included, any
+    file-system answers, any failures).  The inputs are the planned ones (`plan_stdin`, `plan_once_per_mention`); each hands
+    on the lines of the bytes it delivered – all of them when it is healthy, those before the failure otherwise, whatever the
+    OTHER inputs do.  Then: read errors = number of failed inputs; the summary counts are those of all delivered lines; and
+    the exit status is 2 if an input failed, else 2 if the aggregator (histo) saw a line it cannot parse, else 1 if nothing
+    matched, else 0. -/
+theorem run_exit_status (cfg : Config) (args : List Path) (fs : FsOracle) (files : Path → FileOracle)
+    (stdin : Bytes) (stdinFails : Bool) (hu : usageCheck cfg.batch cfg.readers cfg.gunzip args = none) :
+    let r := run cfg args fs files stdin stdinFails
+    let inputs := plan cfg.recursive args fs
+    let lines := inputs.flatMap fun s => C04.splitLines (s.delivered cfg.gunzip files stdin)
+    r.readErrors = Spec.specErrors (inputs.map (Source.failed cfg.gunzip files stdinFails)) ∧
+    r.readLines = lines.length ∧
+    r.matched = (lines.filter fun l => (cfg.mode.matchText l).isSome).length ∧
+    r.exit = Spec.specExit r.readErrors
+      (match cfg.mode with | .histo => (lines.filter fun l => (atoi l).isNone).length | _ => 0) r.matched := by
+  have hlines : ∀ g : Source → SrcRun, (∀ s, (g s).lines = C04.splitLines (s.delivered cfg.gunzip files stdin)) →
+      ((plan cfg.recursive args fs).map g).flatMap (·.lines)
+        = (plan cfg.recursive args fs).flatMap fun s => C04.splitLines (s.delivered cfg.gunzip files stdin) := by
+    intro g hg
+    rw [List.flatMap_map]
+    congr 1
+    funext s
+    exact hg s
+  have herrs : ∀ g : Source → SrcRun, (∀ s, (g s).errs = if s.failed cfg.gunzip files stdinFails then 1 else 0) →
+      (((plan cfg.recursive args fs).map g).map (·.errs)).sum
+        = Spec.specErrors ((plan cfg.recursive args fs).map (Source.failed cfg.gunzip files stdinFails)) := by
+    intro g hg
+    rw [← sum_errs_eq, List.map_map, List.map_map]
+    congr 2
+    funext s
+    exact hg s
+  simp only [run, hu]
+  rw [hlines _ (by intro s; cases s <;> first | rfl | exact runFile_lines _ _ _),
+    herrs _ (by intro s; cases s <;> first | rfl | exact runFile_errs _ _ _)]
+  refine ⟨rfl, rfl, rfl, ?_⟩
+  rw [exitCode_spec]
+  cases cfg.mode <;> rfl
+
+/-- `rare histo` over a healthy file with a non-numeric line: no read error, exit 2 ("Parse errors"); the same file with
+    `filter`: exit 0; a file without any matching line (`filter -m k`): exit 1 -/
+example :
+    (run ⟨false, false, 1, 1, .histo⟩ [[111, 107]] ⟨fun _ => false, fun _ => [], fun _ => .found []⟩
+      (fun _ => ⟨true, false, [49, 10, 120, 10], 0, [], false⟩) []).exit = 2 ∧
+    (run ⟨false, false, 1, 1, .histo⟩ [[111, 107]] ⟨fun _ => false, fun _ => [], fun _ => .found []⟩
+      (fun _ => ⟨true, false, [49, 10, 120, 10], 0, [], false⟩) []).readErrors = 0 ∧
+    (run ⟨false, false, 1, 1, .all⟩ [[111, 107]] ⟨fun _ => false, fun _ => [], fun _ => .found []⟩
+      (fun _ => ⟨true, false, [49, 10, 120, 10], 0, [], false⟩) []).exit = 0 ∧
+    (run ⟨false, false, 1, 1, .hasByte 107⟩ [[111, 107]] ⟨fun _ => false, fun _ => [], fun _ => .found []⟩
+      (fun _ => ⟨true, false, [49, 10, 120, 10], 0, [], false⟩) []).exit = 1 := by
+  decide
 
 /-! ## A failing input does not disturb the others -/
 
